@@ -72,6 +72,9 @@ class FakeNet:
             self.schedule.append(p)
         self._pi = 0
         self._sock_seq = 0
+        self.track_open = True
+        self.max_open = 0
+        self.max_open_at = None
         self.coalesce = True         # False: one recv never returns bytes of two separately queued replies
         self.hook = None             # optional callable(kind, sock) invoked at every socket event (scheduler yield point)
 
@@ -114,6 +117,12 @@ class FakeNet:
         nth = self._kind_count[kind]
         self._kind_count[kind] += 1
         self.log.append((len(self.log), self.call, sock.id if sock is not None else None, kind, info))
+        if self.track_open:
+            # sockets open at this instant, per server address ("at most one per client" is observed per server)
+            n_open = len([s for s in self.sockets if not s.closed])
+            if n_open > self.max_open:
+                self.max_open = n_open
+                self.max_open_at = (len(self.log) - 1, kind)
         if self.hook is not None:
             self.hook(kind, sock)
         f = self.sock_faults.get((self.call, kind, nth))
